@@ -9,6 +9,7 @@ from typing import Dict, List, Optional, Set, Tuple
 
 from ..core import Ctx, Ob, rule
 from ..model import AnalysisError, Func, iter_own, norm
+from .util import stmts_before
 from ..pat import find, has, match, one
 from .trav import _if_chain
 
@@ -425,29 +426,64 @@ def diff(ctx: Ctx) -> List[Ob]:
         ok = ok and isinstance(p_, ast.If) and norm(p_.test) == "ordered"
     O(cmp_, "order marks carry (old index, new index) and are written only when ordered=True", ok, "order marks carry the true old and new index")
     # move re-classification
+    from .util import loop_var_iter, path_conds, resolve_expr
+
     added_sets = set()
-    for n_, e_ in find("$an.add($c._node_id)", cmp_.node):
-        blk = m.parent_of(m.parent_of(n_))
-        if blk is not None and has("$c.set_meta('dc', DC.ADDED)", getattr(blk, "body", []), {"$c": e_["$c"]}):
+    for n_, e_ in find("$an.add($$c._node_id)", cmp_.node):
+        pc_ = m.parent_of(n_)
+        while pc_ is not None and not isinstance(getattr(pc_, "body", None), list):
+            pc_ = m.parent_of(pc_)
+        blk_stmts = stmts_before(ctx, cmp_, m.parent_of(n_)) if isinstance(m.parent_of(n_), ast.stmt) else []
+        recv = e_["$$c"]
+        if any(has(f"{norm(recv)}.set_meta('dc', DC.ADDED)", st_) for st_ in blk_stmts[:4]):
             added_sets.add(e_["$an"])
     lps = [n for n in iter_own(f.node) if isinstance(n, ast.For) and norm(n.iter) in added_sets]
-    ok = len(lps) == 1 and len(added_sets) == 1
-    if ok:
+    ok: Optional[bool] = None
+    why = "move loop over the added ids not recognised"
+    if len(lps) == 1 and len(added_sets) == 1 and isinstance(lps[0].target, ast.Name):
         lp = lps[0]
-        nid = norm(lp.target)
-        e = one(f"$a = {t2}._node_by_id[{nid}]", lp)
-        ok = e is not None
-        if ok:
-            oc = one("$oc = $a.get_clones()", lp, e[1])
-            ok = oc is not None and has("[$n for $n in $oc if $n.get_meta('dc') == DC.REMOVED]", lp, oc[1]) \
-                and has("$a.set_meta('dc', DC.MOVED_HERE)", lp, e[1]) and has("$n.set_meta('dc', DC.MOVED_TO)", lp)
-    O(f, "a moved-here node is an added node with a REMOVED clone, which becomes moved-away", ok, "moves only re-label members of the added/removed sets")
-    red = [n for n in f.body if isinstance(n, ast.If) and norm(n.test) == "reduce"]
-    ok = len(red) == 1
-    if ok:
-        pr = [g for g in f.nested if len(g.positional_params()) == 1 and g is not cmp_]
-        ok = bool(pr) and any(isinstance(n, ast.Return) and match(f"bool({pr[0].positional_params()[0]}.get_meta('dc'))", n.value) is not None for n in iter_own(pr[0].node))
-        ok = ok and has(f"{t2}.filter(predicate={pr[0].name})", red[0]) if pr else False
-    O(f, "reduce filters the result on the truthiness of the 'dc' mark (order tuples included)", ok, "reduce keeps exactly the marked nodes and their ancestors", props=("C11", "C08"))
-    O(f, "the result tree is returned", any(isinstance(n, ast.Return) and norm(n.value) == t2 for n in f.body))
+        nid = lp.target.id
+        here = [c for c in ast.walk(lp) if isinstance(c, ast.Call) and match("$$a.set_meta('dc', DC.MOVED_HERE)", c) is not None]
+        to = [c for c in ast.walk(lp) if isinstance(c, ast.Call) and match("$$n.set_meta('dc', DC.MOVED_TO)", c) is not None]
+        if len(here) == 1 and len(to) == 1:
+            a_ = resolve_expr(ctx, f, here[0], here[0].func.value, keep=[t2])
+            ok = norm(a_) == f"{t2}._node_by_id[{nid}]"
+            why = f"MOVED_HERE is set on `{norm(a_)}`"
+            # ... only if it has clones marked REMOVED ...
+            want_list = f"[N for N in {t2}._node_by_id[{nid}].get_clones() if N.get_meta('dc') == DC.REMOVED]"
+
+            def canon_list(x: ast.AST) -> str:
+                r_ = resolve_expr(ctx, f, here[0], x, keep=[t2])
+                if isinstance(r_, ast.ListComp) and len(r_.generators) == 1 and isinstance(r_.generators[0].target, ast.Name):
+                    import re as _re
+
+                    return _re.sub(rf"\b{r_.generators[0].target.id}\b", "N", norm(r_))
+                return norm(r_)
+
+            guard = [e for e, pol in path_conds(ctx, f, here[0]) if pol and any(here[0] is not x for x in ()) is False and id(getattr(e, "_orig", e)) in {id(x) for x in ast.walk(lp)}]
+            g_ok = any(canon_list(e) == want_list for e in guard)
+            # ... and exactly those clones become MOVED_TO
+            recv = to[0].func.value
+            t_ok = isinstance(recv, ast.Name) and any(canon_list(it) == want_list for it in loop_var_iter(ctx, f, recv.id))
+            if ok and not (g_ok and t_ok):
+                ok = False
+                why = f"guard {[canon_list(e) for e in guard]} / MOVED_TO receiver `{norm(recv)}`"
+    obs.append(ctx.tri("DIFF", ["C11"], f, "a moved-here node is an added node with a REMOVED clone, which becomes moved-away", None, ok,
+                       why + ": moves only re-label members of the added/removed sets"))
+    from .util import find_under
+
+    flt = find_under(ctx, f, f"{t2}.filter(predicate=$pr)", [("reduce", True)]) or find_under(ctx, f, f"{t2}.filter($pr)", [("reduce", True)])
+    all_flt = find(f"{t2}.filter($$x)", f.node) + find(f"{t2}.filter(predicate=$$x)", f.node)
+    ok = None
+    if len(flt) == 1 and len(all_flt) == 1:
+        pr = [g for g in f.nested if g.name == flt[0][1]["$pr"]]
+        if pr and len(pr[0].positional_params()) == 1:
+            rets = [n for n in iter_own(pr[0].node) if isinstance(n, ast.Return) and n.value is not None]
+            pn = pr[0].positional_params()[0]
+            ok = len(rets) == 1 and (match(f"bool({pn}.get_meta('dc'))", rets[0].value) is not None or match(f"{pn}.get_meta('dc')", rets[0].value) is not None)
+    elif all_flt and not flt:
+        ok = False
+    obs.append(ctx.tri("DIFF", ["C11", "C08"], f, "reduce filters the result on the truthiness of the 'dc' mark (order tuples included)", None, ok,
+                       "reduce keeps exactly the marked nodes and their ancestors"))
+    O(f, "the result tree is returned", all(n.value is not None and norm(n.value) == t2 for n in iter_own(f.node) if isinstance(n, ast.Return)) and any(isinstance(n, ast.Return) for n in iter_own(f.node)))
     return obs
